@@ -370,6 +370,11 @@ func runScenario(d *Driver, sc Scenario, timeout time.Duration, oracle bool, res
 				res.Misses = append(res.Misses, OracleMiss{Step: i, Verdict: v[0]})
 			}
 		}
+		// the property's own probe of the implementation runs before the comparison with the model,
+		// so that a step on which model and implementation diverge still yields a concrete finding
+		if sc.Probe != nil {
+			res.Probed = append(res.Probed, sc.Probe(sc, i, st, d, obs[i])...)
+		}
 		r4 := d.Send(fmt.Sprintf("feed %s %s", s.Conn, hx(append(append([]byte{}, data...), sent...))), 4)
 		implOut := fmt.Sprintf("out %s %s", canonN(256, out), ending)
 		res.Descs = descs
@@ -429,9 +434,7 @@ func runScenario(d *Driver, sc Scenario, timeout time.Duration, oracle bool, res
 				return diverge(i, tf.name+" contents", want, got[0]), false, obs
 			}
 		}
-		if sc.Probe != nil {
-			res.Probed = append(res.Probed, sc.Probe(sc, i, st, d, obs[i])...)
-		}
+
 	}
 	return nil, false, obs
 }
